@@ -232,6 +232,7 @@ func suiteStructs(r *Rng, n int, thorough bool, o *Out) {
 		var steps []string
 		var ops []string
 		fail := ""
+		readback := ""
 		step := func(name string, f func() string) {
 			if fail != "" {
 				return
@@ -259,7 +260,17 @@ func suiteStructs(r *Rng, n int, thorough bool, o *Out) {
 			ops = append(ops, lst("get", hx(k)), lst("set", hx(k), sxVal(v)), lst("get", hx(k)))
 			step("Get "+k, func() string { return sxVal(w.Get(k)) })
 			step("Set "+k, func() string { w.Set(k, v); return "ok" })
-			step("Get "+k, func() string { return sxVal(w.Get(k)) })
+			step("Get "+k, func() string {
+				got := w.Get(k)
+				want := v
+				if rv := reflect.ValueOf(v); rv.Kind() == reflect.Ptr && rv.IsNil() {
+					want = nil
+				}
+				if !reflect.DeepEqual(got, want) && readback == "" {
+					readback = fmt.Sprintf("Get %s after Set returns %s, not %s", k, sxVal(got), sxVal(want))
+				}
+				return sxVal(got)
+			})
 		}
 		for _, k := range sortedKeys(wt.Rels) {
 			k := k
@@ -289,6 +300,8 @@ func suiteStructs(r *Rng, n int, thorough bool, o *Out) {
 		pvU := "ok"
 		if fail != "" {
 			pvU = "FAIL:Check accepts but " + fail
+		} else if readback != "" {
+			pvU = "FAIL:" + readback
 		}
 		o.emit(lst("struct", "use", sh.sx, lst(ops...)), lst(steps...), pvU)
 	}
